@@ -33,7 +33,7 @@ func wafConf(pattern string, prefilter, capture bool) string {
 	if capture {
 		acts += ",capture"
 		for i := 0; i <= 9; i++ {
-			acts += fmt.Sprintf(",setvar:tx.c%d=%%{TX.%d}", i, i)
+			acts += fmt.Sprintf(",setvar:tx.c%d=v%%{TX.%d}", i, i)
 		}
 	}
 	fmt.Fprintf(&sb, "SecRule ARGS_GET:v \"@rx %s\" \"%s\"\n", strings.ReplaceAll(pattern, `"`, `\"`), acts)
@@ -77,7 +77,7 @@ func (s *wafSide) eval(in string) (r result) {
 			col := ts.Variables().TX()
 			for i := 0; i <= 9; i++ {
 				if v := col.Get(fmt.Sprintf("c%d", i)); len(v) > 0 {
-					r.caps[i] = v[0]
+					r.caps[i] = strings.TrimPrefix(v[0], "v") // "v" keeps setvar from reading +N / -N as arithmetic
 				}
 			}
 		}
